@@ -171,6 +171,11 @@ func (c *c14Checker) feed(n int, line string) {
 			return
 		}
 		from, to := qs[0], qs[1]
+		if cl := c.destClass(from); cl != "" {
+			// (The driver never removes a list, which is the only operation
+			// that moves a destination file away on purpose.)
+			c.violate("dest-renamed-away:"+cl, "a destination file was moved away, leaving the path without any version", line, n)
+		}
 		if cl := c.destClass(to); cl != "" {
 			c.renamesOnto[cl]++
 			c.rep.Eval(true, fmt.Sprintf("save|%s|%d|%s", cl, c.renamesOnto[cl], to))
@@ -309,7 +314,20 @@ func c14FilterContent(version, nRules int) []byte {
 // every snapshot.
 func c14Reader(rep *verifkit.Report, dir string, stop *atomic.Bool, wg *sync.WaitGroup) {
 	defer wg.Done()
+	seen := map[string]bool{}
+	missing := func(path, class string, err error) {
+		if err != nil && os.IsNotExist(err) && seen[path] {
+			rep.Violate("dest-missing-for-reader:"+class, "a destination path that existed before is missing for a concurrent reader", map[string]any{"path": filepath.Base(path)})
+		} else if err == nil {
+			seen[path] = true
+		}
+	}
 	for !stop.Load() {
+		cfgPath, leasePath := filepath.Join(dir, "AdGuardHome.yaml"), filepath.Join(dir, "data", "leases.json")
+		_, e1 := os.Stat(cfgPath)
+		missing(cfgPath, "config", e1)
+		_, e2 := os.Stat(leasePath)
+		missing(leasePath, "leases", e2)
 		if b, err := os.ReadFile(filepath.Join(dir, "AdGuardHome.yaml")); err == nil {
 			rep.Event("reader_snapshots_config")
 			if why := c14ValidConfig(b); why != "" {
@@ -477,15 +495,19 @@ func TestVerifC14(t *testing.T) {
 	_ = os.WriteFile(filepath.Join(dir, "leases.db"), []byte(legacy), 0o644)
 	// An installation that has a legacy database also has its data directory.
 	_ = os.MkdirAll(filepath.Join(dir, "data"), 0o755)
-	if err = in.launch(os.Getenv("VERIF_AGH_BIN"), opts); err != nil {
-		rep.Inconcl("start under strace: " + err.Error())
-
-		return
-	}
+	// The reader starts before the server, so that it also watches the
+	// start-up rewrite of the old-schema configuration.
 	var stop atomic.Bool
 	var wg sync.WaitGroup
 	wg.Add(1)
 	go c14Reader(rep, dir, &stop, &wg)
+	if err = in.launch(os.Getenv("VERIF_AGH_BIN"), opts); err != nil {
+		stop.Store(true)
+		wg.Wait()
+		rep.Inconcl("start under strace: " + err.Error())
+
+		return
+	}
 	rounds := verifkit.Pick(12, 60)
 	bigRules := verifkit.Pick(20000, 120000)
 	bigList := verifkit.Pick(20000, 600000)
